@@ -31,3 +31,18 @@ def c13_cov_special(v):
         vals = v.get('detail', {}).get('values', [])
         return bool(vals) and all(str(x) == '-inf' for x in vals)
     return False
+
+
+def c06_cam_sampler(v):
+    """
+    ConstantAndMultiplicativeGaussianErrorModel.sample adds two independent
+    Gaussians (sd sqrt(sb^2 + (sr*y)^2)) while the density uses sd sb + sr*y.
+    Attributed only if the samples PASS the PIT test against that wrong model
+    (a sampler wrong in any other way is a new violation).
+    """
+    if v['monitor'] != 'pit_ks':
+        return False
+    if v['mechanism'] != \
+            'ks_reject:ConstantAndMultiplicativeGaussianErrorModel':
+        return False
+    return bool(v.get('detail', {}).get('matches_quadrature_model'))
